@@ -76,6 +76,7 @@ void ares_destroy(ares_channel_t *channel)
     ares_query_t      *query = ares_llist_node_claim(node);
 
     query->node_all_queries = NULL;
+    ares_detach_query(query);
     query->callback(query->arg, ARES_EDESTRUCTION, 0, NULL);
     ares_free_query(query);
 
